@@ -34,6 +34,18 @@ struct PolyInfo {
     expr: Expression<F>,
     guard: Option<Expression<F>>,
     adv: Vec<(usize, i32)>,
+    /// `Some(s)`: the polynomial is `selector_s * (...)`, hence zero wherever the selector is off
+    gate_sel: Option<usize>,
+}
+
+fn gating_selector(e: &Expression<F>) -> Option<usize> {
+    match e {
+        Expression::Product(a, b) => match (&**a, &**b) {
+            (Expression::Selector(s), _) | (_, Expression::Selector(s)) => Some(s.index()),
+            (x, y) => gating_selector(x).or_else(|| gating_selector(y)),
+        },
+        _ => None,
+    }
 }
 
 struct LookupInfo {
@@ -102,6 +114,7 @@ impl<'a> Repair<'a> {
                     expr: p.clone(),
                     guard: None,
                     adv: adv_queries(p),
+                    gate_sel: gating_selector(p),
                 });
             }
         }
@@ -117,6 +130,7 @@ impl<'a> Repair<'a> {
                     expr: p.clone(),
                     guard: Some(tr.selector().clone()),
                     adv: q,
+                    gate_sel: None,
                 });
             }
         }
@@ -286,6 +300,11 @@ impl<'a> Repair<'a> {
         match con {
             Con::Poly(pi, row) => {
                 let p = &self.polys[*pi];
+                if let Some(sel) = p.gate_sel {
+                    if !self.t.selectors[sel][*row] {
+                        return false;
+                    }
+                }
                 if let Some(g) = &p.guard {
                     if self.t.eval(g, *row) == F::ZERO {
                         return false;
@@ -389,10 +408,25 @@ impl<'a> Repair<'a> {
         Some(-y0 * inv?)
     }
 
-    /// Moves for a violated constraint: each is a list of (cell, value) to set (whole classes).
-    fn moves(&mut self, con: &Con) -> Vec<Vec<(Cell, F)>> {
+    /// Would the constraint hold after setting these cells (only the cells, not their classes)?
+    fn satisfied_after(&mut self, con: &Con, mv: &[(Cell, F)]) -> bool {
+        let olds: Vec<F> = mv.iter().map(|(c, _)| self.t.advice[c.0][c.1]).collect();
+        for (c, v) in mv {
+            self.t.advice[c.0][c.1] = *v;
+        }
+        let ok = !self.con_violated(con);
+        for ((c, _), o) in mv.iter().zip(olds) {
+            self.t.advice[c.0][c.1] = o;
+        }
+        ok
+    }
+
+    /// Moves for a violated constraint, in the order they are tried. `.0` = commit: the move is a
+    /// donor transplant that satisfies the constraint on its own; when the search below it fails,
+    /// the alternatives for this constraint are not explored.
+    fn moves(&mut self, con: &Con) -> Vec<(bool, Vec<(Cell, F)>)> {
         let cells = self.cells_of(con);
-        let mut out: Vec<Vec<(Cell, F)>> = vec![];
+        let mut out: Vec<(bool, Vec<(Cell, F)>)> = vec![];
         if let Con::Class(id) = con {
             let mut vals: Vec<F> = vec![];
             if let Some(p) = self.pinned[*id] {
@@ -418,23 +452,48 @@ impl<'a> Repair<'a> {
             for v in vals {
                 if seen.insert(v.to_repr().as_ref().to_vec()) {
                     if let Some(m) = cells.first() {
-                        out.push(vec![(*m, v)]);
+                        out.push((false, vec![(*m, v)]));
                     }
                 }
             }
             return out;
         }
         let free: Vec<Cell> = cells.into_iter().filter(|c| self.is_free(c)).collect();
-        // donor moves
+        let mut sat_donor: Vec<Vec<(Cell, F)>> = vec![];
+        let mut unsat_donor: Vec<Vec<(Cell, F)>> = vec![];
         for d in self.donors.clone() {
-            let mv: Vec<(Cell, F)> = free
+            let all: Vec<(Cell, F)> = free
                 .iter()
                 .filter(|c| d.advice[c.0][c.1] != self.t.advice[c.0][c.1])
                 .map(|c| (*c, d.advice[c.0][c.1]))
                 .collect();
-            if !mv.is_empty() && !out.contains(&mv) {
-                out.push(mv);
+            if all.is_empty() {
+                continue;
             }
+            let mut cands: Vec<Vec<(Cell, F)>> = vec![];
+            if all.len() <= 4 {
+                for x in &all {
+                    cands.push(vec![*x]);
+                }
+            }
+            if all.len() > 1 {
+                cands.push(all);
+            }
+            for mv in cands {
+                if sat_donor.contains(&mv) || unsat_donor.contains(&mv) {
+                    continue;
+                }
+                if self.satisfied_after(con, &mv) {
+                    sat_donor.push(mv);
+                } else {
+                    unsat_donor.push(mv);
+                }
+            }
+        }
+        sat_donor.sort_by_key(|m| m.len());
+        let committed = !sat_donor.is_empty();
+        for mv in sat_donor {
+            out.push((true, mv));
         }
         // affine moves
         if let Con::Poly(pi, row) = con {
@@ -443,11 +502,16 @@ impl<'a> Repair<'a> {
                 if let Some(v) = self.solve_affine(&expr, *row, *c) {
                     if v != self.t.advice[c.0][c.1] {
                         let mv = vec![(*c, v)];
-                        if !out.contains(&mv) {
-                            out.push(mv);
+                        if !out.iter().any(|(_, m)| *m == mv) {
+                            out.push((false, mv));
                         }
                     }
                 }
+            }
+        }
+        if !committed {
+            for mv in unsat_donor {
+                out.push((false, mv));
             }
         }
         out
@@ -469,8 +533,8 @@ impl<'a> Repair<'a> {
         if self.changed.len() > self.max_changed {
             return false;
         }
-        // most constrained first
-        let mut best: Option<(Con, Vec<Vec<(Cell, F)>>)> = None;
+        // a constraint with a committing move first, else the most constrained one
+        let mut best: Option<(Con, Vec<(bool, Vec<(Cell, F)>)>)> = None;
         for con in viol.iter().take(16) {
             let mv = self.moves(con);
             if mv.is_empty() {
@@ -480,16 +544,24 @@ impl<'a> Repair<'a> {
                 }
                 return false;
             }
-            if best.as_ref().map(|b| mv.len() < b.1.len()).unwrap_or(true) {
+            let commits = mv[0].0;
+            let better = match &best {
+                None => true,
+                Some((_, b)) => (commits && !b[0].0) || (commits == b[0].0 && mv.len() < b.len()),
+            };
+            if better {
                 best = Some((con.clone(), mv));
+            }
+            if commits {
+                break;
             }
         }
         let (con, moves) = best.unwrap();
         let mark = self.undo.len();
         let changed_before = self.changed.clone();
-        for mv in moves {
+        for (commit, mv) in moves {
             if self.debug {
-                eprintln!("[repair]   {con:?}: move on {} cells", mv.len());
+                eprintln!("[repair]   {con:?}: move on {} cells{}", mv.len(), if commit { " (commit)" } else { "" });
             }
             let mut ok = true;
             for (c, v) in &mv {
@@ -502,7 +574,7 @@ impl<'a> Repair<'a> {
                 return true;
             }
             self.rollback(mark, &changed_before);
-            if self.stats.nodes > self.budget {
+            if self.stats.nodes > self.budget || (commit && ok) {
                 return false;
             }
         }
